@@ -1,10 +1,39 @@
-(* C07 — Instruction matching ignores case, extra spacing, comments and rule order.  Only statements. *)
+(* C07 — Instruction matching ignores case, extra spacing, comments and rule order.  Only statements.
+   (The invariance of whole programs under the renderings is decided on every run by the metamorphic stream.) *)
 From Coq Require Import NArith ZArith List Bool.
-From CA Require Import Model.Lexer Model.Parser Model.Matcher.
+From CA Require Import Model.Lexer Model.Parser Model.Matcher Proofs.MatcherP Proofs.MatcherCaseP.
 Import ListNotations.
 Open Scope N_scope.
 
-(* ASCII recasing: the stored pattern and the comparison are both modulo ASCII case *)
+(* case: patterns are stored lower-cased, so the case of the rule text is irrelevant ... *)
+Theorem C07_pattern_lowercase : forall t, lower_exacts (map to_lower t) = lower_exacts t.
+Proof. exact MatcherCaseP.C07_pattern_lowercase. Qed.
+(* ... literal characters of the instruction are compared modulo ASCII case, both for the first character of a
+   pattern token (after skipping blanks and comments) and for the following, glued ones *)
+Theorem C07_char_case : forall w c c', to_lower c = to_lower c' ->
+  maybe_expect_char w c = maybe_expect_char w c' /\ maybe_expect_char_glued w c = maybe_expect_char_glued w c'.
+Proof. exact MatcherCaseP.C07_char_case. Qed.
+Theorem C07_instr_char_case : forall w w' ch ch' t c,
+  cur w = cur w' -> lim w = lim w' -> tail w = ch :: t -> tail w' = ch' :: t -> to_lower ch = to_lower ch' ->
+  maybe_expect_char_glued w c = maybe_expect_char_glued w' c.
+Proof. exact MatcherCaseP.C07_instr_char_case_eq. Qed.
+
+(* spacing and comments: any run of blanks / tabs / comments in front of the first character of a pattern token is skipped *)
+Theorem C07_blank_before_exact : forall f w c, maybe_expect_char (skip_ignorable f w) c = maybe_expect_char w c.
+Proof. exact MatcherCaseP.C07_blank_before_exact. Qed.
+
+(* literal priority: only matches with the maximal recursive count of literal characters survive, so a rule that
+   spells an operand literally always beats one that reads the same text as an expression *)
+Theorem C07_literal_priority : forall defs working m, In m (finish_matches defs working) ->
+  forall m', In m' (map fst working) -> exact_count defs m' <= get_exact m.
+Proof. exact MatcherCaseP.C07_literal_priority_all. Qed.
+Theorem C07_maximal_survives : forall defs working m0, In m0 (dedupe [] (map fst working)) ->
+  (forall m', In m' (dedupe [] (map fst working)) -> exact_count defs m' <= exact_count defs m0) ->
+  In (set_exact m0 (exact_count defs m0)) (finish_matches defs working).
+Proof. exact MatcherCaseP.finish_complete. Qed.
+
+(* rule order / block partition: the candidate list through the index is a permutation of the brute-force list
+   (Props/C08.v); the metamorphic stream decides the whole-program statement *)
 Theorem C07_to_lower_idempotent : forall c, to_lower (to_lower c) = to_lower c.
 Proof.
   intro c. unfold to_lower, in_range.
